@@ -151,6 +151,8 @@ Go's `%g`, and by the integer instance: `lawful_int`) -/
 structure Lawful (N : Type) [NumOps N] : Prop where
   nan_zero : isNaN (zero : N) = false
   nan_one : isNaN (one : N) = false
+  inf_zero : isInf (zero : N) = false
+  inf_one : isInf (one : N) = false
   fmt_ne : ∀ x : N, fmtG x ≠ []
 
 theorem digitsAux_ne (fuel n : Nat) (acc : List Nat) (h : acc ≠ []) : IntInst.digitsAux fuel n acc ≠ [] := by
@@ -163,7 +165,7 @@ theorem digitsAux_ne (fuel n : Nat) (acc : List Nat) (h : acc ≠ []) : IntInst.
     · exact ih _ _ (by simp)
 
 theorem lawful_int : Lawful Int := by
-  refine ⟨rfl, rfl, ?_⟩
+  refine ⟨rfl, rfl, rfl, rfl, ?_⟩
   intro x
   show IntInst.fmtInt x ≠ []
   unfold IntInst.fmtInt
@@ -183,8 +185,8 @@ def NotErr {N : Type} : Spec.Val N → Prop
 
 /-- operands that do not hide a NaN -/
 def Clean {N : Type} [NumOps N] : Spec.Val N → Prop
-  | .num x => isNaN x = false
-  | .text s => ∀ x : N, parse s = some x → isNaN x = false
+  | .num x => isNaN x = false ∧ isInf x = false
+  | .text s => ∀ x : N, parse s = some x → isNaN x = false ∧ isInf x = false
   | _ => True
 
 /-- clause "coercion rules" (arithmetic context): excelize's `ToNumber` after the blank→0
@@ -198,23 +200,23 @@ theorem coerce_agree {N : Type} [NumOps N] (L : Lawful N) (v : Spec.Val N)
   cases v with
   | err c => exact absurd hv (by simp [NotErr])
   | num x =>
-    have : isNaN x = false := by simpa [Clean] using hc
-    simp [Spec.toNum, toImpl, Impl.blank0, Impl.value, L.fmt_ne, Impl.toNumber, this]
+    have : isNaN x = false ∧ isInf x = false := by simpa [Clean] using hc
+    simp [Spec.toNum, toImpl, Impl.blank0, Impl.value, L.fmt_ne, Impl.toNumber, this.1, this.2]
   | bool b =>
     have hvb : ∀ x : N, Impl.value (Impl.Arg.num x true) ≠ [] := by
       intro x; simp only [Impl.value]; split <;> simp [sTRUE, sFALSE]
-    cases b <;> simp [Spec.toNum, toImpl, Impl.mkBool, Impl.blank0, hvb, Impl.toNumber, L.nan_zero, L.nan_one]
+    cases b <;> simp [Spec.toNum, toImpl, Impl.mkBool, Impl.blank0, hvb, Impl.toNumber, L.nan_zero, L.inf_zero, L.nan_one, L.inf_one]
   | blank =>
-    simp [Spec.toNum, toImpl, Impl.blank0, Impl.value, Impl.mkNum, L.nan_zero, Impl.toNumber]
+    simp [Spec.toNum, toImpl, Impl.blank0, Impl.value, Impl.mkNum, L.nan_zero, L.inf_zero, Impl.toNumber]
   | text s =>
     have hs : s ≠ [] := by intro h; exact hne (by rw [h])
     simp only [Spec.toNum, toImpl, Impl.blank0, Impl.value, hs, if_false, Impl.toNumber]
     cases hp : (parse s : Option N) with
     | none => simp
     | some x =>
-      have hc' : ∀ x : N, parse s = some x → isNaN x = false := by simpa [Clean] using hc
+      have hc' : ∀ x : N, parse s = some x → isNaN x = false ∧ isInf x = false := by simpa [Clean] using hc
       have := hc' x hp
-      simp [this]
+      simp [this.1, this.2]
 
 theorem blank0_toImpl_ne_err {N : Type} [NumOps N] (L : Lawful N) (v : Spec.Val N) (hv : NotErr v) (m : Str) :
     Impl.blank0 (toImpl v) ≠ .err m := by
@@ -224,10 +226,10 @@ theorem blank0_toImpl_ne_err {N : Type} [NumOps N] (L : Lawful N) (v : Spec.Val 
   | err c => exact absurd hv (by simp [NotErr])
   | num x => simp [toImpl, Impl.blank0, Impl.value, L.fmt_ne]
   | bool b => simp [toImpl, Impl.mkBool, Impl.blank0, hvb]
-  | blank => simp [toImpl, Impl.blank0, Impl.value, Impl.mkNum, L.nan_zero]
+  | blank => simp [toImpl, Impl.blank0, Impl.value, Impl.mkNum, L.nan_zero, L.inf_zero]
   | text s =>
     by_cases hs : s = []
-    · simp [toImpl, Impl.blank0, Impl.value, hs, Impl.mkNum, L.nan_zero]
+    · simp [toImpl, Impl.blank0, Impl.value, hs, Impl.mkNum, L.nan_zero, L.inf_zero]
     · simp [toImpl, Impl.blank0, Impl.value, hs]
 
 /-- the three total arithmetic operators -/
@@ -295,7 +297,7 @@ theorem arith_agree_nonvacuous :
       (Spec.binop .add (.bool true) (.text [55])) ∧
     Spec.binop .add (.bool true : Spec.Val Int) (.text [55]) = .num 8 := by
   refine ⟨arith_agree lawful_int .add _ rfl _ _ trivial trivial (by simp) (by simp) trivial
-    (fun _ _ => rfl) (fun _ _ _ _ => rfl), by decide +kernel⟩
+    (fun _ _ => ⟨rfl, rfl⟩) (fun _ _ _ _ => rfl), by decide +kernel⟩
 
 /-! ## per-operator agreement: `/`, `^`, `&` and the six comparisons -/
 
@@ -365,7 +367,7 @@ theorem norm_text (s : Str) (hs : s ≠ []) : Impl.blank0 (toImpl (.text s : Spe
   simp [toImpl, Impl.blank0, Impl.value, hs]
 
 theorem norm_blank (L : Lawful N) : Impl.blank0 (toImpl (.blank : Spec.Val N)) = .num zero false := by
-  simp [toImpl, Impl.blank0, Impl.value, Impl.mkNum, L.nan_zero]
+  simp [toImpl, Impl.blank0, Impl.value, Impl.mkNum, L.nan_zero, L.inf_zero]
 
 end norm
 
@@ -745,7 +747,7 @@ def Compatible {N : Type} [NumOps N] (op : Op) (a b : Spec.Val N) : Prop :=
       ∀ x y, Spec.toNum a = .ok x → Spec.toNum b = .ok y → isZero y = false → Finite (div x y)
   | .pow => ArithOperands a b ∧
       ∀ x y, Spec.toNum a = .ok x → Spec.toNum b = .ok y →
-        (isZero x = true → isZero y = false ∧ lt y zero = false) ∧ Finite (pow x y)
+        (isZero x = true → isZero y = false ∧ lt y zero = false) → Finite (pow x y)
   | .concat => NotErr a ∧ NotErr b ∧ PlainNum a ∧ PlainNum b
   | .lt => CompatOrd a b
   | .le => CompatOrd a b
@@ -801,16 +803,19 @@ theorem binop_agree {N : Type} [NumOps N] (L : Lawful N) (C : LawfulCmp N) (op :
     · simp [hz, R]
   case pow =>
     obtain ⟨ho, hf⟩ := h
-    refine arith_R_generic L .pow a b (fun x y => pure (Impl.mkNum (pow x y))) Spec.powSpec
+    refine arith_R_generic L .pow a b Impl.powRes Spec.powSpec
       (Impl.applyBin_pow_shape _ _ (blank0_toImpl_ne_err L a ho.1) (blank0_toImpl_ne_err L b ho.2.1))
       rfl ho ?_
     intro x y hx hy
-    obtain ⟨hz, hfin⟩ := hf x y hx hy
-    unfold Spec.powSpec
+    have hfin := hf x y hx hy
+    unfold Impl.powRes Spec.powSpec
     cases hzx : isZero x
-    · simpa [hzx] using R_num _ hfin
-    · obtain ⟨h1, h2⟩ := hz hzx
-      simpa [hzx, h1, h2] using R_num _ hfin
+    · simpa [hzx] using R_num _ (hfin (by simp [hzx]))
+    · cases hzy : isZero y
+      · cases hl : lt y zero
+        · simpa [hzx, hzy, hl] using R_num _ (hfin (fun _ => ⟨hzy, hl⟩))
+        · simp [hzx, hzy, hl, R]
+      · simp [hzx, hzy, R]
   case concat =>
     obtain ⟨ha, hb, pa, pb⟩ := h
     have na : ∀ m, toImpl a ≠ .err m := by cases a <;> simp_all [toImpl, NotErr, Impl.mkBool]
@@ -844,22 +849,15 @@ def IsErr {N : Type} : Spec.Val N → Prop
 
 def b2n {N : Type} [NumOps N] (b : Bool) : N := if b then one else zero
 
-/-- operands on which unary minus is Excel's: numbers, booleans, blanks, numeric text (an error
-propagates); non-numeric text is `finding_neg_text` -/
-def NegOK {N : Type} [NumOps N] : Spec.Val N → Prop
+/-- operands on which a unary arithmetic operator (prefix minus, postfix %) is Excel's: every
+number, boolean, blank and non-empty text (non-numeric text is `#VALUE!` on both sides since the
+second fix window), with a finite result; an error propagates -/
+def UnaryOK {N : Type} [NumOps N] (f : N → N) : Spec.Val N → Prop
   | .err _ => True
-  | .num x => isNaN x = false ∧ Finite (sub zero x)
-  | .bool b => Finite (sub zero (b2n b : N))
-  | .blank => Finite (sub (zero : N) zero)
-  | .text s => ∃ x : N, parse s = some x ∧ isNaN x = false ∧ Finite (sub zero x)
+  | a => a ≠ .text [] ∧ Clean a ∧ ∀ x, Spec.toNum a = .ok x → Finite (f x)
 
-/-- operands on which postfix % is Excel's: numbers, booleans, blanks (text: `finding_pct_text`) -/
-def PctOK {N : Type} [NumOps N] : Spec.Val N → Prop
-  | .err _ => True
-  | .num x => Finite (div x (ofNat 100))
-  | .bool b => Finite (div (b2n b : N) (ofNat 100))
-  | .blank => Finite (div (zero : N) (ofNat 100))
-  | .text _ => False
+def NegOK {N : Type} [NumOps N] (a : Spec.Val N) : Prop := UnaryOK (fun x : N => sub zero x) a
+def PctOK {N : Type} [NumOps N] (a : Spec.Val N) : Prop := UnaryOK (fun x : N => div x (ofNat 100)) a
 
 /-- the two cell environments describe the same workbook: every referenced cell is known to both
 or to neither, holds no error value (`ref:error-not-propagated`), and reaches `calculate` as
@@ -872,7 +870,7 @@ def EnvRel {N : Type} [NumOps N] (envI : Str → Option (Impl.CellArg N)) (envS 
 
 /-- no node of the tree is one of the listed deviant (operator, operand-kind) combinations -/
 def NoDeviant {N : Type} [NumOps N] (envS : Str → Option (Spec.Val N)) : Expr → Prop
-  | .num raw => ∃ x : N, parse raw = some x ∧ isNaN x = false
+  | .num raw => ∃ x : N, parse raw = some x ∧ isNaN x = false ∧ isInf x = false
   | .text _ => True
   | .logical _ => True
   | .ref _ => True
@@ -903,45 +901,37 @@ theorem spec_neg_err {N : Type} [NumOps N] (a : Spec.Val N) (h : IsErr a) : IsEr
 theorem spec_pct_err {N : Type} [NumOps N] (a : Spec.Val N) (h : IsErr a) : IsErr (Spec.pct a) := by
   cases a <;> simp_all [IsErr, Spec.pct, Spec.toNum, Spec.ofExcept]
 
-theorem neg_R {N : Type} [NumOps N] (L : Lawful N) (hpn : (parse ([] : Str) : Option N) = none)
-    (a : Spec.Val N) (hn : ¬ IsErr a) (h : NegOK a) :
-    R (.ok (Impl.negate (toImpl a))) (Spec.neg a) := by
-  cases a with
-  | err c => exact absurd trivial hn
-  | num x =>
-    obtain ⟨h1, h2⟩ := h
-    have := R_num _ h2
-    simpa [Impl.negate, Impl.toNumberField, Impl.toNumber, toImpl, h1, Spec.neg, Spec.toNum, Spec.ofExcept] using this
-  | bool b =>
-    have := R_num _ h
-    have hb : isNaN (if b then one else zero : N) = false := by cases b <;> simp [L.nan_zero, L.nan_one]
-    simpa [Impl.negate, Impl.toNumberField, Impl.toNumber, toImpl, Impl.mkBool, hb, Spec.neg, Spec.toNum,
-      Spec.ofExcept, b2n] using this
-  | blank =>
-    have := R_num _ h
-    simpa [Impl.negate, Impl.toNumberField, Impl.toNumber, toImpl, hpn, Spec.neg, Spec.toNum,
-      Spec.ofExcept] using this
-  | text s =>
-    obtain ⟨x, hp, h1, h2⟩ := h
-    have := R_num _ h2
-    simpa [Impl.negate, Impl.toNumberField, Impl.toNumber, toImpl, hp, h1, Spec.neg, Spec.toNum,
-      Spec.ofExcept] using this
+theorem unary_R {N : Type} [NumOps N] (L : Lawful N) (f : N → N) (a : Spec.Val N)
+    (hn : ¬ IsErr a) (h : UnaryOK f a) :
+    R (Impl.unaryNum f (toImpl a)) (Spec.ofExcept (do let x ← Spec.toNum a; pure (Spec.mkNum (f x)))) := by
+  have hne : NotErr a := by cases a <;> simp_all [IsErr, NotErr]
+  have h' : a ≠ .text [] ∧ Clean a ∧ ∀ x, Spec.toNum a = .ok x → Finite (f x) := by
+    cases a <;> simp_all [UnaryOK, IsErr]
+  have ca := coerce_agree L a hne h'.1 h'.2.1
+  have na := blank0_toImpl_ne_err L a hne
+  have shape : Impl.unaryNum f (toImpl a) =
+      (do let x ← Impl.liftE (Impl.toNumber (Impl.blank0 (toImpl a))); pure (Impl.mkNum (f x))) := by
+    unfold Impl.unaryNum
+    generalize Impl.blank0 (toImpl a) = a' at na ⊢
+    cases a' <;> simp_all
+  rw [shape]
+  cases hx : Spec.toNum a with
+  | error c =>
+    rw [hx] at ca
+    obtain ⟨m, hm⟩ := ca
+    simp [hm, Impl.liftE, Spec.ofExcept, R]
+  | ok x =>
+    rw [hx] at ca
+    simpa [ca, Impl.liftE, Spec.ofExcept] using R_num _ (h'.2.2 x hx)
 
-theorem pct_R {N : Type} [NumOps N] (a : Spec.Val N) (hn : ¬ IsErr a) (h : PctOK a) :
-    R (.ok (Impl.percent (toImpl a))) (Spec.pct a) := by
+theorem neg_R {N : Type} [NumOps N] (L : Lawful N) (a : Spec.Val N) (hn : ¬ IsErr a) (h : NegOK a) :
+    R (Impl.negate (toImpl a)) (Spec.neg a) := unary_R L _ a hn h
+
+theorem pct_R {N : Type} [NumOps N] (L : Lawful N) (a : Spec.Val N) (hn : ¬ IsErr a) (h : PctOK a) :
+    R (Impl.percent (toImpl a)) (Spec.pct a) := by
   have hd : percentDivisor = 100 := by decide
-  cases a with
-  | err c => exact absurd trivial hn
-  | text s => exact absurd h (by simp [PctOK])
-  | num x =>
-    have := R_num _ h
-    simpa [Impl.percent, Impl.numberField, toImpl, hd, Spec.pct, Spec.toNum, Spec.ofExcept] using this
-  | bool b =>
-    have := R_num _ h
-    simpa [Impl.percent, Impl.numberField, toImpl, Impl.mkBool, hd, Spec.pct, Spec.toNum, Spec.ofExcept, b2n] using this
-  | blank =>
-    have := R_num _ h
-    simpa [Impl.percent, Impl.numberField, toImpl, hd, Spec.pct, Spec.toNum, Spec.ofExcept] using this
+  have := unary_R L (fun x : N => div x (ofNat 100)) a hn h
+  simpa [Impl.percent, hd, Spec.pct] using this
 
 /-- the structural evaluator agrees with Excel on every tree without deviant nodes -/
 theorem tree_agree {N : Type} [NumOps N] (L : Lawful N) (C : LawfulCmp N)
@@ -951,8 +941,8 @@ theorem tree_agree {N : Type} [NumOps N] (L : Lawful N) (C : LawfulCmp N)
     R (Impl.evalTree envI e) (Spec.eval envS e) := by
   induction e with
   | num raw =>
-    obtain ⟨x, hp, hn⟩ := hN
-    simp [Impl.evalTree, Impl.tokenToArg, Spec.eval, hp, Impl.mkNum, hn, R, toImpl]
+    obtain ⟨x, hp, hn, hi⟩ := hN
+    simp [Impl.evalTree, Impl.tokenToArg, Spec.eval, hp, Impl.mkNum, hn, hi, R, toImpl]
   | text s => simp [Impl.evalTree, Impl.tokenToArg, Spec.eval, R, toImpl, Tok.tvalue]
   | logical raw => simp [Impl.evalTree, Impl.tokenToArg, Spec.eval, R, toImpl]
   | ref k =>
@@ -984,7 +974,7 @@ theorem tree_agree {N : Type} [NumOps N] (L : Lawful N) (C : LawfulCmp N)
       rw [hm]
       exact (R_err _ _ (spec_neg_err _ he)).mpr ⟨m, rfl⟩
     · rw [(R_ok _ _ he).mp ihe]
-      exact neg_R L hpn _ he h3
+      exact neg_R L _ he h3
   | pct e ih =>
     obtain ⟨h1, h3⟩ := hN
     have ihe := ih h1
@@ -995,7 +985,7 @@ theorem tree_agree {N : Type} [NumOps N] (L : Lawful N) (C : LawfulCmp N)
       rw [hm]
       exact (R_err _ _ (spec_pct_err _ he)).mpr ⟨m, rfl⟩
     · rw [(R_ok _ _ he).mp ihe]
-      exact pct_R _ he h3
+      exact pct_R L _ he h3
   | bin op l r ihl ihr =>
     obtain ⟨hl, hr, hc⟩ := hN
     have il := ihl hl
@@ -1054,9 +1044,9 @@ theorem calc_correct_nonvacuous :
   have ea : Spec.eval (N := Int) (fun _ => none)
       (.bin .add (.num [49]) (.bin .mul (.num [50]) (.num [51]))) = .num 7 := by decide +kernel
   have ao : ∀ x y : Int, ArithOperands (.num x : Spec.Val Int) (.num y) :=
-    fun x y => ⟨trivial, trivial, by simp, by simp, rfl, rfl⟩
-  refine ⟨⟨⟨1, by decide +kernel, rfl⟩, ⟨⟨2, by decide +kernel, rfl⟩, ⟨3, by decide +kernel, rfl⟩, ?_⟩, ?_⟩,
-    ⟨10, by decide +kernel, rfl⟩, ?_⟩
+    fun x y => ⟨trivial, trivial, by simp, by simp, ⟨rfl, rfl⟩, ⟨rfl, rfl⟩⟩
+  refine ⟨⟨⟨1, by decide +kernel, rfl, rfl⟩, ⟨⟨2, by decide +kernel, rfl, rfl⟩, ⟨3, by decide +kernel, rfl, rfl⟩, ?_⟩, ?_⟩,
+    ⟨10, by decide +kernel, rfl, rfl⟩, ?_⟩
   · rw [e2, e3]; exact Or.inr (Or.inr ⟨ao 2 3, fun _ _ _ _ => hfin _⟩)
   · rw [e1, em]; exact Or.inr (Or.inr ⟨ao 1 6, fun _ _ _ _ => hfin _⟩)
   · rw [ea, e10]; exact Or.inr (Or.inr ⟨rfl, rfl⟩)
@@ -1111,12 +1101,14 @@ theorem mirror_compatible {N : Type} [NumOps N] (op : Op) (a b : Spec.Val N)
     have := mirror_both a b _ h.2 x y hx hy
     simpa [hz] using this
   case pow =>
-    refine ⟨mirror_arithOperands a b h.1, fun x y hx hy => ?_⟩
+    refine ⟨mirror_arithOperands a b h.1, fun x y hx hy hz => mirror_finite _ ?_⟩
     have := mirror_both a b _ h.2 x y hx hy
-    simp only [Bool.and_eq_true, Bool.or_eq_true, Bool.not_eq_true'] at this
-    refine ⟨fun hz => ?_, mirror_finite _ this.2⟩
-    rcases this.1 with h1 | h1
-    · rw [hz] at h1; cases h1
+    simp only [Bool.or_eq_true, Bool.not_eq_true', Bool.and_eq_true, Bool.not_eq_false'] at this
+    rcases this with h1 | h1
+    · by_cases hzx : isZero x = true
+      · have := hz hzx
+        simp_all
+      · simp_all
     · exact h1
   case concat =>
     obtain ⟨⟨⟨h1, h2⟩, h3⟩, h4⟩ := h
@@ -1132,29 +1124,45 @@ theorem mirror_compatible {N : Type} [NumOps N] (op : Op) (a b : Spec.Val N)
   case eq => exact mirror_compatEq a b h
   case ne => exact mirror_compatEq a b h
 
-theorem mirror_negOK {N : Type} [NumOps N] (a : Spec.Val N) (h : Check.negOK a = true) : NegOK a := by
+theorem mirror_unaryOK {N : Type} [NumOps N] (f : N → N) (a : Spec.Val N)
+    (h : Check.unaryOK f a = true) : UnaryOK f a := by
+  have cl : ∀ v : Spec.Val N, Check.cleanB v = true → Clean v := by
+    intro v hv
+    cases v with
+    | num x => simpa [Check.cleanB, Clean] using hv
+    | text s =>
+      simp only [Clean]
+      intro x hx
+      simpa [Check.cleanB, hx] using hv
+    | _ => simp [Clean]
   cases a with
   | err c => trivial
   | num x =>
-    simp only [Check.negOK, Bool.and_eq_true, Bool.not_eq_true'] at h
-    exact ⟨h.1, mirror_finite _ h.2⟩
-  | bool b => exact mirror_finite _ h
-  | blank => exact mirror_finite _ h
+    simp only [Check.unaryOK, Bool.and_eq_true, Bool.not_eq_true'] at h
+    refine ⟨by simp, cl _ h.1.2, fun y hy => mirror_finite _ ?_⟩
+    simpa [hy] using h.2
+  | bool b =>
+    simp only [Check.unaryOK, Bool.and_eq_true, Bool.not_eq_true'] at h
+    refine ⟨by simp, cl _ h.1.2, fun y hy => mirror_finite _ ?_⟩
+    simpa [hy] using h.2
+  | blank =>
+    simp only [Check.unaryOK, Bool.and_eq_true, Bool.not_eq_true'] at h
+    refine ⟨by simp, cl _ h.1.2, fun y hy => mirror_finite _ ?_⟩
+    simpa [hy] using h.2
   | text s =>
-    simp only [Check.negOK] at h
-    cases hp : (parse s : Option N) with
-    | none => simp [hp] at h
-    | some x =>
-      simp only [hp, Bool.and_eq_true, Bool.not_eq_true'] at h
-      exact ⟨x, hp, h.1, mirror_finite _ h.2⟩
+    simp only [Check.unaryOK, Bool.and_eq_true, Bool.not_eq_true'] at h
+    refine ⟨?_, cl _ h.1.2, fun y hy => mirror_finite _ ?_⟩
+    · intro e
+      have : s = [] := by simpa using e
+      subst this
+      simp [Check.emptyText] at h
+    · simpa [hy] using h.2
 
-theorem mirror_pctOK {N : Type} [NumOps N] (a : Spec.Val N) (h : Check.pctOK a = true) : PctOK a := by
-  cases a with
-  | err c => trivial
-  | text s => simp [Check.pctOK] at h
-  | num x => exact mirror_finite _ h
-  | bool b => exact mirror_finite _ h
-  | blank => exact mirror_finite _ h
+theorem mirror_negOK {N : Type} [NumOps N] (a : Spec.Val N) (h : Check.negOK a = true) : NegOK a :=
+  mirror_unaryOK _ a h
+
+theorem mirror_pctOK {N : Type} [NumOps N] (a : Spec.Val N) (h : Check.pctOK a = true) : PctOK a :=
+  mirror_unaryOK _ a h
 
 theorem mirror_isErr {N : Type} (a : Spec.Val N) (h : Check.isErr a = true) : IsErr a := by
   cases a <;> simp_all [Check.isErr, IsErr]
@@ -1169,7 +1177,9 @@ theorem mirror_noDeviant {N : Type} [NumOps N] (envS : Str → Option (Spec.Val 
     simp only [Check.noDeviant] at h
     cases hp : (parse raw : Option N) with
     | none => simp [hp] at h
-    | some x => exact ⟨x, hp, by simpa [hp] using h⟩
+    | some x =>
+      have : isNaN x = false ∧ isInf x = false := by simpa [hp] using h
+      exact ⟨x, hp, this.1, this.2⟩
   | text s => trivial
   | logical raw => trivial
   | ref k => trivial
@@ -1255,7 +1265,7 @@ no number and otherwise the maximum of the numbers alone — on both sides.  The
 that every number is above the sentinel −MaxFloat64 and is not a NaN, plus two order laws. -/
 theorem aggregate_fold_max {N : Type} [NumOps N] (L : Lawful N) (cells : List (Spec.Val N))
     (hne : ∀ v ∈ cells, NotErr v)
-    (hs : ∀ x ∈ Spec.numbers cells, lt (sub zero maxFloat) x = true ∧ isNaN x = false)
+    (hs : ∀ x ∈ Spec.numbers cells, lt (sub zero maxFloat) x = true ∧ isNaN x = false ∧ isInf x = false)
     (hlt : ∀ a b : N, lt a b = true → eq b a = false)
     (heq : eq (sub zero (maxFloat : N)) (sub zero maxFloat) = true) :
     let v : N := match Spec.numbers cells with
@@ -1265,7 +1275,7 @@ theorem aggregate_fold_max {N : Type} [NumOps N] (L : Lawful N) (cells : List (S
     Spec.aggregate .max cells = .num v := by
   simp only [Impl.aggregate, Spec.aggregate, firstErr_none cells hne, maxStep_fold]
   cases hn : Spec.numbers cells with
-  | nil => simp [heq, Impl.mkNum, L.nan_zero]
+  | nil => simp [heq, Impl.mkNum, L.nan_zero, L.inf_zero]
   | cons x xs =>
     rw [hn] at hs
     have hx := hs x (by simp)
@@ -1274,12 +1284,12 @@ theorem aggregate_fold_max {N : Type} [NumOps N] (L : Lawful N) (cells : List (S
     have h1 := hs _ hm
     have h2 := hlt _ _ h1.1
     simp [Spec.maxOf] at h1 h2 ⊢
-    simp [h2, Impl.mkNum, h1.2]
+    simp [h2, Impl.mkNum, h1.2.1, h1.2.2]
 
 /-- the same for MIN (sentinel +MaxFloat64) -/
 theorem aggregate_fold_min {N : Type} [NumOps N] (L : Lawful N) (cells : List (Spec.Val N))
     (hne : ∀ v ∈ cells, NotErr v)
-    (hs : ∀ x ∈ Spec.numbers cells, lt x maxFloat = true ∧ isNaN x = false)
+    (hs : ∀ x ∈ Spec.numbers cells, lt x maxFloat = true ∧ isNaN x = false ∧ isInf x = false)
     (hlt : ∀ a b : N, lt a b = true → eq a b = false)
     (heq : eq (maxFloat : N) maxFloat = true) :
     let v : N := match Spec.numbers cells with
@@ -1289,7 +1299,7 @@ theorem aggregate_fold_min {N : Type} [NumOps N] (L : Lawful N) (cells : List (S
     Spec.aggregate .min cells = .num v := by
   simp only [Impl.aggregate, Spec.aggregate, firstErr_none cells hne, minStep_fold]
   cases hn : Spec.numbers cells with
-  | nil => simp [heq, Impl.mkNum, L.nan_zero]
+  | nil => simp [heq, Impl.mkNum, L.nan_zero, L.inf_zero]
   | cons x xs =>
     rw [hn] at hs
     have hx := hs x (by simp)
@@ -1298,7 +1308,7 @@ theorem aggregate_fold_min {N : Type} [NumOps N] (L : Lawful N) (cells : List (S
     have h1 := hs _ hm
     have h2 := hlt _ _ h1.1
     simp [Spec.minOf] at h1 h2 ⊢
-    simp [h2, Impl.mkNum, h1.2]
+    simp [h2, Impl.mkNum, h1.2.1, h1.2.2]
 
 theorem countStep_fold {N : Type} [NumOps N] (cells : List (Spec.Val N)) (n : Nat)
     (hb : ∀ b, Spec.Val.bool b ∉ cells) :
@@ -1381,7 +1391,7 @@ both at once (see `aggregate_fold_max`, `aggregate_fold_min`; COUNT, SUM, PRODUC
 theorem aggregate_fold {N : Type} [NumOps N] (L : Lawful N) (cells : List (Spec.Val N))
     (hne : ∀ v ∈ cells, NotErr v)
     (hs : ∀ x ∈ Spec.numbers cells,
-      lt (sub zero maxFloat) x = true ∧ lt x maxFloat = true ∧ isNaN x = false)
+      lt (sub zero maxFloat) x = true ∧ lt x maxFloat = true ∧ isNaN x = false ∧ isInf x = false)
     (hlt : ∀ a b : N, lt a b = true → eq b a = false ∧ eq a b = false)
     (heq : eq (sub zero (maxFloat : N)) (sub zero maxFloat) = true ∧ eq (maxFloat : N) maxFloat = true) :
     (Impl.aggregate .max (cells.map toCell) = .ok (.num (match Spec.numbers cells with
@@ -1396,8 +1406,8 @@ theorem aggregate_fold {N : Type} [NumOps N] (L : Lawful N) (cells : List (Spec.
      Spec.aggregate .min cells = .num (match Spec.numbers cells with
         | [] => zero
         | x :: xs => Spec.minOf x xs)) :=
-  ⟨aggregate_fold_max L cells hne (fun x hx => ⟨(hs x hx).1, (hs x hx).2.2⟩) (fun a b h => (hlt a b h).1) heq.1,
-   aggregate_fold_min L cells hne (fun x hx => ⟨(hs x hx).2.1, (hs x hx).2.2⟩) (fun a b h => (hlt a b h).2) heq.2⟩
+  ⟨aggregate_fold_max L cells hne (fun x hx => ⟨(hs x hx).1, (hs x hx).2.2.1, (hs x hx).2.2.2⟩) (fun a b h => (hlt a b h).1) heq.1,
+   aggregate_fold_min L cells hne (fun x hx => ⟨(hs x hx).2.1, (hs x hx).2.2.1, (hs x hx).2.2.2⟩) (fun a b h => (hlt a b h).2) heq.2⟩
 
 /-- non-vacuity: the hypotheses of `aggregate_fold` hold on the integer instance for the range
 `["7" "abc" -3]` (the shape of the seeded MAX change), where both sides give −3 -/
@@ -1639,20 +1649,18 @@ theorem finding_blank_false :
     Spec.eval (N := Int) (fun _ => some .blank) (.bin .eq (.ref [65]) (.logical sFALSE)) = .bool true := by
   decide +kernel
 
-/-- `=-"a"` → 0 (the failed `ToNumber` is ignored); Excel: #VALUE! -/
-theorem finding_neg_text :
-    Impl.evalTokens noEnv (render 1 (.neg (.text [97]))) = .ok (.num 0 false) ∧
-    Spec.eval noEnvS (.neg (.text [97])) = .err .value := by decide +kernel
+/-- regression (second fix window): `=-"a"` aborts (Excel: #VALUE!), `="500"%` is 5 on both sides -/
+theorem fixed_unary_coercion :
+    Impl.evalTokens noEnv (render 1 (.neg (.text [97]))) = .error (.msg (.parseFloat [97])) ∧
+    Spec.eval noEnvS (.neg (.text [97])) = .err .value ∧
+    Impl.evalTokens noEnv (render 1 (.pct (.text [53, 48, 48]))) = .ok (.num 5 false) ∧
+    Spec.eval noEnvS (.pct (.text [53, 48, 48])) = .num 5 := by
+  decide +kernel
 
 /-- `=--TRUE` → TRUE (two prefix minus tokens cancel without coercion); Excel: 1 -/
 theorem finding_double_neg :
     Impl.evalTokens noEnv (render 1 (.neg (.neg (.logical sTRUE)))) = .ok (.num 1 true) ∧
     Spec.eval noEnvS (.neg (.neg (.logical sTRUE))) = .num 1 := by decide +kernel
-
-/-- `="500"%` → 0 (postfix % reads the `.Number` field of a string argument); Excel: 5 -/
-theorem finding_pct_text :
-    Impl.evalTokens noEnv (render 1 (.pct (.text [53, 48, 48]))) = .ok (.num 0 false) ∧
-    Spec.eval noEnvS (.pct (.text [53, 48, 48])) = .num 5 := by decide +kernel
 
 /-- `=""+1` → 1 and `=""=0` → TRUE (the empty text literal is treated like a blank cell);
 Excel: #VALUE!, FALSE -/
@@ -1662,13 +1670,20 @@ theorem finding_empty_text :
     Impl.evalTokens noEnv (render 1 (.bin .eq (.text []) (.num [48]))) = .ok (.num 1 true) ∧
     Spec.eval noEnvS (.bin .eq (.text []) (.num [48])) = .bool false := by decide +kernel
 
-/-- an error *value* on the operand stack (excelize creates one for a NaN: `#NUM!`) is swallowed by
-prefix minus, by postfix % and by infix minus, for every numeric carrier -/
-theorem finding_numerr_swallowed {N : Type} [NumOps N] (m : Str) (st : List (Impl.Arg N))
-    (h0 : isNaN (sub (zero : N) zero) = false) :
-    Impl.calculate (.err m :: st) (.prefixOp sMinus) = .ok (.num (sub zero zero) false :: st) := by
+/-- regression (second fix window): an error *value* on the operand stack (a NaN or overflowing
+result: `#NUM!`) is no longer swallowed by prefix minus — it aborts the evaluation with its code,
+for every numeric carrier (likewise postfix % and infix minus) -/
+theorem fixed_numerr_propagates {N : Type} [NumOps N] (m : Str) (st : List (Impl.Arg N))
+    (hm : m ≠ []) :
+    Impl.calculate (.err m :: st) (.prefixOp sMinus) = .error (.msg (.lit m)) := by
   rw [Impl.calculate_neg]
-  simp [Impl.negate, Impl.toNumberField, Impl.toNumber, Impl.mkNum, h0]
+  simp [Impl.negate, Impl.unaryNum, Impl.blank0, Impl.value, hm]
+
+/-- regression (second fix window): `0^0` is #NUM!, overflow is #NUM! (integer instance: 0^0) -/
+theorem fixed_pow_zero :
+    Impl.evalTokens noEnv (render 1 (.bin .pow (.num [48]) (.num [48]))) =
+      .error (.msg (.lit formulaErrorNUM)) ∧
+    Spec.eval noEnvS (.bin .pow (.num [48]) (.num [48])) = .err .num := by decide +kernel
 
 end findings
 
